@@ -21,8 +21,12 @@ def parseIdFact (s : String) : Option (Option PK) :=
 def isHex (s : String) : Bool :=
   s = "~" || (s.length % 2 = 0 && s.toList.all fun c => c.isDigit || ('a' ≤ c && c ≤ 'f'))
 
-def parseEnv (s : String) : Option (Env × Option PK) :=
+partial def parseEnv (s : String) : Option (Env × Option PK) :=
   match s.splitOn "/" with
+  | [outer, typ, payload, seq, sender, idf, relay] =>
+    -- through processPubsubMessage; the neighbour the message arrived from is not an input of
+    -- the model (the binding is to the signed author `outer`)
+    if isHex relay then parseEnv ("/".intercalate [outer, typ, payload, seq, sender, idf]) else none
   | [outer, typ, payload, seq, sender, idf] => do
     let seq ← seq.toNat?
     let f ← parseIdFact idf
